@@ -28,7 +28,10 @@ def tree_digest(top):
 
 
 def iso(ms):
-    return T.from_ms(ms).strftime("%Y-%m-%dT%H:%M:%S.") + "%03dZ" % (ms % 1000)
+    """ISO 8601 string for the instant; every other one is written without a zone designator, which the
+    tools document as UTC"""
+    base = T.from_ms(ms).strftime("%Y-%m-%dT%H:%M:%S.") + "%03d" % (ms % 1000)
+    return base + ("Z" if (ms // 1000) % 2 == 0 else "")
 
 
 def option_sets(times, tier):
@@ -71,6 +74,10 @@ def option_sets(times, tier):
         s = ts[0] // 1000 * 1000
         out.append((["-s", str(s // 1000), "-e", "+5"], dict(starttime=T.from_ms(s), endtime=T.from_ms(s + 5000))))
     return out
+
+
+def bad_any(part):
+    return bool(part["violations"])
 
 
 def run_tree(args):
@@ -187,6 +194,32 @@ def run_tree(args):
                                 if a[0] != "link" or os.path.realpath(os.path.join(dest, drel)) != os.path.realpath(os.path.join(real_src, srel)):
                                     bad({"class": "not_a_symlink_to_source", "cmd": cmd}, "%s -> %s %r" % (srel, drel, a), **q)
                                     break
+                    if cmd in ("ln", "lnsym") and expected and n % 4 == 0 and not bad_any(part):
+                        # the source is regenerated (new content, new inode) and the same command is run again:
+                        # it must either refuse or leave links to the current source files - never claim success
+                        # with entries that still present the old content
+                        victim = sorted(expected.values())[0]
+                        vp = os.path.join(real_src, victim)
+                        os.unlink(vp)
+                        with open(vp, "w") as f:
+                            f.write("regenerated content %d\n" % n)
+                        try:
+                            drf_command.main(argv)
+                            second = "ok"
+                        except SystemExit:
+                            second = "exit"
+                        except Exception:  # noqa: BLE001
+                            second = "raised"
+                        if second == "ok":
+                            drel = [k for k, v in expected.items() if v == victim][0]
+                            dp = os.path.join(dest, drel)
+                            same = os.path.exists(dp) and open(dp).read() == open(vp).read()
+                            if not same:
+                                bad({"class": "second_ln_left_stale_entry", "cmd": cmd},
+                                    "drf %s run twice after %s was regenerated: second run succeeded but the destination entry does not present the source's content" % (
+                                        " ".join(argv[:1] + argv[3:]), victim), **q)
+                        after_src = tree_digest(real_src)
+                        before = dict(after_src)
                     if cmd in ("mv", "mvx"):
                         want_src = {k: v for k, v in before.items() if k not in set(expected.values())}
                         if {k: v[:2] for k, v in after_src.items()} != {k: v[:2] for k, v in want_src.items()}:
@@ -223,7 +256,7 @@ def run_real(args):
         dest = os.path.join(root, "dest")
         os.makedirs(dest)
         n, d = 10, 3
-        cfg = rf.Cfg(n=n, d=d, fc=1000, sc=2, start=md.first_of_ts(1394368230, n, d), cont=(mode == "cont"))
+        cfg = rf.Cfg(n=n, d=d, fc=1000, sc=2, start=md.first_of_ts(1394333998, n, d), cont=(mode == "cont"))
         chdir = os.path.join(src, "ch0")
         os.makedirs(os.path.join(chdir, "metadata"))
         w = rf.open_writer(drf, chdir, cfg)
@@ -236,8 +269,8 @@ def run_real(args):
         argv = [cmd if cmd != "lnsym" else "ln"] + (["--symbolic"] if cmd == "lnsym" else []) + [src, dest]
         s_ms = e_ms = None
         if window:
-            s_ms = (1394368230 + 2) * 1000
-            e_ms = (1394368230 + 7) * 1000
+            s_ms = (1394333998 + 2) * 1000
+            e_ms = (1394333998 + 7) * 1000
             argv += ["-s", iso(s_ms), "-e", iso(e_ms)]
         rs = drf.DigitalRFReader(src)
         b = rs.get_bounds("ch0")
